@@ -28,7 +28,7 @@ func init() {
 }
 
 func ledgerOpts(r *vfw.Run) scen.Opts {
-	o := scen.Opts{MinIdent: 1, MaxIdent: 24, Zones: true, Skew: true, CeremonySoon: true}
+	o := scen.Opts{MinIdent: 1, MaxIdent: 24, Zones: true, Skew: true, CeremonySoon: true, SmallShards: true}
 	if r.Tier == "thorough" {
 		o.MaxIdent = 60
 	}
